@@ -349,6 +349,20 @@ pub fn c03(opts: &Opts, out: &mut Out) {
             shapes.insert((k, "length-mismatch", 0));
         }
     }
+    // two different proofs of ONE statement in one batch, the second valid or not (a verdict or a recovery term kept
+    // per statement would serve the second member from the first)
+    for bi in [0usize, 2, 5] {
+        let base = valid[bi].clone();
+        let mut second = base.clone();
+        second.proof = base.inst.prove(&mut rng).unwrap();
+        let bad = make_invalid(&second, 1 + bi);
+        for a in fmrun::ACTIONS {
+            check_batch(out, "C03", "same-statement-two-proofs", &[&base, &second], 2, 2, a);
+            check_batch(out, "C03", "same-statement-second-proof-invalid", &[&base, &bad], 2, 2, a);
+            check_batch(out, "C03", "same-statement-first-proof-invalid", &[&bad, &base, &second], 3, 3, a);
+        }
+        shapes.insert((2, "same-statement", bi));
+    }
     // empty inputs
     check_batch(out, "C03", "empty", &[], 0, 0, VerifyAction::VerifyOnly);
     check_batch(out, "C03", "no-transcripts", &[&valid[0]], 0, 1, VerifyAction::VerifyOnly);
